@@ -632,10 +632,71 @@ fn former_findings(ctx: &mut Ctx) {
     }
 }
 
+/// the constructor functions of `impl ControlMessage`: called positionally with generated terms; the tuple they put on
+/// the wire is compared with the model (T) and with the protocol's tuple for these arguments (P)
+fn constructors(ctx: &mut Ctx) {
+    type C2 = fn(OwnedTerm, OwnedTerm) -> ControlMessage;
+    type C3 = fn(OwnedTerm, OwnedTerm, OwnedTerm) -> ControlMessage;
+    type C4 = fn(OwnedTerm, OwnedTerm, OwnedTerm, OwnedTerm) -> ControlMessage;
+    let c2: &[(&str, C2)] = &[
+        ("link", ControlMessage::link),
+        ("unlink", ControlMessage::unlink),
+        ("send", ControlMessage::send),
+        ("group_leader", ControlMessage::group_leader),
+        ("send_sender", ControlMessage::send_sender),
+        ("payload_exit", ControlMessage::payload_exit),
+        ("payload_exit2", ControlMessage::payload_exit2),
+    ];
+    let c3: &[(&str, C3)] = &[
+        ("exit", ControlMessage::exit),
+        ("exit2", ControlMessage::exit2),
+        ("reg_send", ControlMessage::reg_send),
+        ("monitor_p", ControlMessage::monitor_p),
+        ("demonitor_p", ControlMessage::demonitor_p),
+        ("payload_monitor_p_exit", ControlMessage::payload_monitor_p_exit),
+    ];
+    let c4: &[(&str, C4)] = &[("monitor_p_exit", ControlMessage::monitor_p_exit)];
+    let rounds = ctx.n(6, 40);
+    let mut emit = |ctx: &mut Ctx, name: &str, args: &[OwnedTerm], m: ControlMessage| {
+        let at: Vec<String> = args.iter().map(term_text).collect();
+        let to = std::panic::catch_unwind(std::panic::AssertUnwindSafe(|| m.to_term()));
+        let into = std::panic::catch_unwind(std::panic::AssertUnwindSafe(|| m.clone().into_term()));
+        let tup = to.as_ref().ok().cloned();
+        ctx.tie("ctor", &format!("c08ctor {} {}", name, at.join(" ")), &format!("{} {} {}", msg_text(&m), opt_text(to), opt_text(into)));
+        if let Some(t) = tup {
+            ctx.prop("ctor", &format!("c08ctorprop {} {} {}", name, term_text(&t), at.join(" ")), "ok");
+            match from_term(&t) {
+                Ok(back) if back == m => {}
+                other => ctx.fail("c08-constructor-roundtrip", &format!("{} {:?}", name, other.map(|x| msg_text(&x)))),
+            }
+        }
+        ctx.count("constructor_calls");
+    };
+    for round in 0..rounds {
+        // round 0: distinct marker atoms (a swapped pair cannot hide); then generated terms
+        let mut arg = |ctx: &mut Ctx, k: usize| -> OwnedTerm {
+            if round == 0 { atom(&format!("arg{}", k)) } else { gen_plain(&mut ctx.rng, 0) }
+        };
+        for (name, f) in c2 {
+            let a = [arg(ctx, 1), arg(ctx, 2)];
+            emit(ctx, name, &a, f(a[0].clone(), a[1].clone()));
+        }
+        for (name, f) in c3 {
+            let a = [arg(ctx, 1), arg(ctx, 2), arg(ctx, 3)];
+            emit(ctx, name, &a, f(a[0].clone(), a[1].clone(), a[2].clone()));
+        }
+        for (name, f) in c4 {
+            let a = [arg(ctx, 1), arg(ctx, 2), arg(ctx, 3), arg(ctx, 4)];
+            emit(ctx, name, &a, f(a[0].clone(), a[1].clone(), a[2].clone(), a[3].clone()));
+        }
+    }
+}
+
 pub fn run(ctx: &mut Ctx) {
     former_findings(ctx);
     numbering(ctx);
     exhaustive(ctx);
     wider(ctx);
     structured(ctx);
+    constructors(ctx);
 }
